@@ -570,16 +570,58 @@ class Fn:
         self._trk = trk
         return trk
 
+    def _discr_of(self):
+        """{tmp: L} for `tmp = discriminant(L)` where L is a bare local that is never mutated after
+        its single definition (so a discriminant observed once stays valid)"""
+        if hasattr(self, '_dof'):
+            return self._dof
+        d = {}
+        self.defs(0)
+        for b in self.blocks:
+            for s in b['s']:
+                if s['k'] == 'assign' and s['rv']['k'] == 'discr' and not s['lhs'].get('p'):
+                    p = s['rv']['place']
+                    if p.get('p'):
+                        continue
+                    L = p['l']
+                    if len(self.defs(L)) <= 1 and L not in self._partial and not self._mut_borrowed(L):
+                        d[s['lhs']['l']] = L
+        self._dof = d
+        return d
+
+    def _mut_borrowed(self, L):
+        if not hasattr(self, '_mb'):
+            mb = set()
+            for b in self.blocks:
+                for s in b['s']:
+                    if s['k'] == 'assign' and s['rv']['k'] in ('ref', 'rawptr') and (s['rv'].get('mut') or s['rv']['k'] == 'rawptr'):
+                        p = s['rv']['place']
+                        if not any(x['k'] == 'deref' for x in p.get('p', [])):
+                            mb.add(p['l'])
+            self._mb = mb
+        return L in self._mb
+
     def _step_env(self, bb, env):
         trk = self._tracked()
-        if not trk:
+        dof = self._discr_of()
+        if not trk and not dof:
             return env
         env = dict(env)
+        if dof:
+            for s in self.blocks[bb]['s']:
+                if s['k'] == 'assign' and s['lhs']['l'] in dof and not s['lhs'].get('p'):
+                    L = dof[s['lhs']['l']]
+                    if ('d', L) in env:
+                        env[s['lhs']['l']] = env[('d', L)]
+                    else:
+                        env.pop(s['lhs']['l'], None)
         for s in self.blocks[bb]['s']:
             if s['k'] != 'assign':
                 continue
             lhs = s['lhs']
             l = lhs['l']
+            if l in dof:
+                continue
             if l not in trk:
                 continue
             if lhs.get('p'):
@@ -613,7 +655,7 @@ class Fn:
             return set()
         seen = set()
         reach = set()
-        work = [(start, tuple(sorted((start_env or {}).items())))]
+        work = [(start, tuple(sorted((start_env or {}).items(), key=repr)))]
         while work:
             bb, envt = work.pop()
             if (bb, envt) in seen:
@@ -635,13 +677,25 @@ class Fn:
                             break
             if nxt is None:
                 nxt = self.succs(bb)
-            envt2 = tuple(sorted(env.items()))
+            dof = self._discr_of()
+            dl = None
+            if t['k'] == 'switch':
+                op = t['d']
+                p = op.get('cp') or op.get('mv')
+                if p and not p.get('p') and p['l'] in dof:
+                    dl = (p['l'], dof[p['l']])
             for n in nxt:
                 if (bb, n) in cut_edges or n in cut_blocks:
                     continue
                 if self.blocks[n].get('cleanup'):
                     continue
-                work.append((n, envt2))
+                env2 = env
+                if dl is not None and ('d', dl[1]) not in env:
+                    vals = [v for v, b2 in t['ts'] if b2 == n]
+                    if len(vals) == 1 and n != t['o']:
+                        env2 = dict(env)
+                        env2[('d', dl[1])] = vals[0]
+                work.append((n, tuple(sorted(env2.items(), key=repr))))
         return reach
 
     def only_via_edge(self, edge):
@@ -1027,7 +1081,7 @@ def panic_sites(f):
 UNWRAP_NAMES = {'as_mut', 'as_ref', 'ok_or', 'ok_or_else', 'unwrap', 'expect', 'clone', 'deref',
                 'deref_mut', 'borrow', 'borrow_mut', 'as_slice', 'as_mut_slice', 'to_vec',
                 'as_deref', 'as_deref_mut', 'unwrap_or_default', 'iter', 'iter_mut', 'into_iter',
-                'to_owned', 'into', 'as_str', 'as_bytes', 'as_path', 'take'}
+                'to_owned', 'into', 'as_str', 'as_bytes', 'as_path', 'take', 'enumerate', 'copied', 'cloned'}
 
 
 def access_path(e):
@@ -1065,6 +1119,8 @@ def access_path(e):
             e = e[1]
             continue
         if k == 'call' and e[2] and (e[4].get('name') in UNWRAP_NAMES or e[1] in ('branch', 'poll')):
+            if e[4].get('name') == 'take' and not e[1].startswith('std::option::Option'):
+                return None
             e = e[2][0]
             continue
         if k == 'call' and e[2] and e[4].get('name') in ('get', 'get_mut', 'index', 'index_mut', 'get_unchecked'):
